@@ -426,16 +426,19 @@ Definition fallback_part (json_part : text) : text :=
   let s3 := sub_quoted (N.eqb 34) true (fun q b => [39; 1] ++ y ++ b ++ [1] ++ o ++ [39]) s2 0 in
   T " " ++ strip s3 ++ T " *".
 
-(* sanitize_record before the final colorizer; clean_record is called with colorize=True *)
+(* sanitize_record before the final colorizer; clean_record is called with colorize=True.
+   The record is split and its JSON tail searched on the text AS GIVEN; the level is colour-coded
+   afterwards and in the leading (header) fields only, field by field (since 9aa9629; before,
+   color_code ran over the whole record first and could break the JSON of the message). *)
 Definition sanitize_core (sens : text -> bool) (parse : text -> option obj) (digest : text -> text)
            (can : bool) (record : text) : text :=
-  let parts := split bar (color_code can record) in
+  let parts := split bar record in
   match find_tail parse parts 0 with
   | Some (i, o) =>
-      join [bar] (firstn i parts ++
+      join [bar] (map (color_code can) (firstn i parts) ++
                   [T " " ++ json_dumps_flat (render_obj colours_on
                               (clean_obj sens py_str py_repr digest (colour_quotes colours_on) o))])
-  | None => join [bar] (removelast parts ++ [fallback_part (last parts [])])
+  | None => join [bar] (map (color_code can) (removelast parts) ++ [fallback_part (last parts [])])
   end.
 
 Definition sanitize_record (parse : text -> option obj) (digest : text -> text) (can : bool) (record : text) : text :=
@@ -495,13 +498,13 @@ Definition c20_show_clean (c : bool * obj * list (text * text) * list (text * te
 
 (* stream "fmt": (can_colorize, text produced by the wrapped formatter, json.loads table,
    digest table, text returned by LogFormatter.format).  The json.loads table is keyed by
-   the offset of a '|'-tail inside the colour-coded record: (n, r) says that the text from
+   the offset of a '|'-tail inside the record: (n, r) says that the text from
    offset n to the end was given to json.loads with result r. *)
 Definition ptab_of (coloured : text) (tbl : list (N * option obj)) : list (text * option obj) :=
   map (fun e => (skipn (N.to_nat (fst e)) coloured, snd e)) tbl.
 Definition c20_fmt_model (c : bool * text * list (N * option obj) * list (text * text) * text) : text :=
   let '(can, msg, ps, dg, observed) := c in
-  format_model (parse_of (ptab_of (color_code can msg) ps)) (digest_of dg) can msg.
+  format_model (parse_of (ptab_of msg ps)) (digest_of dg) can msg.
 Definition c20_check_fmt (c : bool * text * list (N * option obj) * list (text * text) * text) : bool :=
   teqb (c20_fmt_model c) (snd c).
 Definition c20_show_fmt := c20_fmt_model.
@@ -691,6 +694,145 @@ Definition c20_show_sess (c : heap * list sop * list (text * text) * list sobs) 
   let '(h, ops, dg, obs) := c in sess_run (digest_of dg) h ops.
 
 (* ------------------------------------------------------------------ *)
+(* Duplicate warnings (add_level.log_for_level / GoogleLogger.write_event at WARNING): a
+   warning whose key (the message text; str(message) for GoogleLogger) was logged before in
+   this process is dropped and counted; the first time, report_suppressions(message) is
+   registered with atexit.  At interpreter exit the registered reports run, last registered
+   first; one whose count is positive logs - again at WARNING - the dict
+   {"message": "... suppressed N time(s)", "suppressed": <the message>} (since 84f3a17; before,
+   a line of text that embedded the message). *)
+Fixpoint json_eqb (a b : json) {struct a} : bool :=
+  match a, b with
+  | JStr s, JStr t => teqb s t
+  | JNum s, JNum t => teqb s t
+  | JBool x, JBool y => Bool.eqb x y
+  | JNull, JNull => true
+  | JArr l, JArr m =>
+      (fix go (l m : list json) : bool :=
+         match l, m with
+         | [], [] => true
+         | x :: l', y :: m' => json_eqb x y && go l' m'
+         | _, _ => false
+         end) l m
+  | JObj l, JObj m =>
+      (fix go (l m : list (text * json)) : bool :=
+         match l, m with
+         | [], [] => true
+         | (k, x) :: l', (k', y) :: m' => teqb k k' && json_eqb x y && go l' m'
+         | _, _ => false
+         end) l m
+  | _, _ => false
+  end.
+
+Inductive wmsg :=
+| WObj (o : obj)                               (* a dict message *)
+| WText (t : text) (parsed : option json).     (* a str message; json.loads(t) when t is JSON (oracle) *)
+
+(* same key in the table of seen warnings (a session never passes a dict and its own JSON text) *)
+Definition wmsg_eqb (a b : wmsg) : bool :=
+  match a, b with
+  | WObj o, WObj o' => json_eqb (JObj o) (JObj o')
+  | WText t _, WText t' _ => teqb t t'
+  | _, _ => false
+  end.
+
+(* what the report shows under "suppressed": add_level parses the text back when it is JSON,
+   GoogleLogger ([gcl]) passes the message object itself *)
+Definition wvalue (gcl : bool) (m : wmsg) : json :=
+  match m with
+  | WObj o => JObj o
+  | WText t p => if gcl then JStr t else match p with Some j => j | None => JStr t end
+  end.
+
+Fixpoint dec_digits (fuel : nat) (n : N) : text :=
+  match fuel with
+  | O => []
+  | S f => if n <? 10 then [48 + n] else dec_digits f (n / 10) ++ [48 + n mod 10]
+  end.
+Definition dec_of_nat (n : nat) : text := dec_digits 20 (N.of_nat n).
+
+Definition report_obj (gcl : bool) (m : wmsg) (n : nat) : obj :=
+  [(T "message", JStr (T "The following message was suppressed " ++ dec_of_nat n ++ T " time(s)"));
+   (T "suppressed", wvalue gcl m)].
+
+(* (message, times dropped) ; registered reports, most recent first *)
+Record wstate := mkw { w_seen : list (wmsg * nat); w_reg : list wmsg }.
+Definition w_empty : wstate := mkw [] [].
+
+Definition w_count (st : wstate) (m : wmsg) : nat :=
+  match find (fun e => wmsg_eqb m (fst e)) (w_seen st) with Some e => snd e | None => O end.
+
+(* logger.warning(m): the new state and what is emitted (nothing, or m) *)
+Definition warn (st : wstate) (m : wmsg) : wstate * list wmsg :=
+  if existsb (fun e => wmsg_eqb m (fst e)) (w_seen st)
+  then (mkw (map (fun e => if wmsg_eqb m (fst e) then (fst e, S (snd e)) else e) (w_seen st)) (w_reg st), [])
+  else (mkw ((m, O) :: w_seen st) (m :: w_reg st), [m]).
+
+Fixpoint warn_all (st : wstate) (msgs : list wmsg) : wstate * list wmsg :=
+  match msgs with
+  | [] => (st, [])
+  | m :: r => let '(st1, e1) := warn st m in let '(st2, e2) := warn_all st1 r in (st2, e1 ++ e2)
+  end.
+
+(* interpreter exit.  [same] = the reports are logged by the logger that counted the warnings
+   (get_logger() is that logger); otherwise (GoogleLogger.write_event called directly while
+   get_logger() is the stream logger) they go to a logger with its own, empty, table. *)
+Fixpoint warn_exit (gcl same : bool) (src dst : wstate) (reg : list wmsg) : list wmsg :=
+  match reg with
+  | [] => []
+  | m :: r =>
+      match w_count (if same then dst else src) m with
+      | O => warn_exit gcl same src dst r
+      | S k => let '(dst', e) := warn dst (WObj (report_obj gcl m (S k))) in
+               e ++ warn_exit gcl same src dst' r
+      end
+  end.
+
+(* everything a process emits: the warnings in order, then the reports *)
+Definition warn_session (gcl same : bool) (msgs : list wmsg) : list wmsg :=
+  let '(st, e) := warn_all w_empty msgs in
+  e ++ warn_exit gcl same st (if same then st else w_empty) (w_reg st).
+
+(* one emitted record as the harness saw it: a line of the stream handler (colour setting,
+   text given to sanitize_record, json.loads table, output), or the string fields of a line
+   GoogleLogger printed *)
+Inductive wrec :=
+| RLine (can : bool) (rec : text) (ps : list (N * option obj)) (out : text)
+| RFields (fields : list (text * text)).
+
+Definition wrec_ok (digest : text -> text) (e : wmsg) (r : wrec) : bool :=
+  match r with
+  | RLine can rec ps out =>
+      let parse := parse_of (ptab_of rec ps) in
+      teqb (format_model parse digest can rec) out &&
+      match e with
+      | WObj o => match find_tail parse (split bar rec) 0 with
+                  | Some (_, o') => json_eqb (JObj o) (JObj o')
+                  | None => false
+                  end
+      | WText t _ => ends_with t rec
+      end
+  | RFields fields =>
+      match e with
+      | WObj o => gcl_fields_ok (clean_record_model digest false o) fields
+      | WText t _ => match lookup (T "message") fields with Some m => teqb m t | None => false end
+      end
+  end.
+
+Fixpoint wrecs_ok (digest : text -> text) (es : list wmsg) (rs : list wrec) : bool :=
+  match es, rs with
+  | [], [] => true
+  | e :: es', r :: rs' => wrec_ok digest e r && wrecs_ok digest es' rs'
+  | _, _ => false
+  end.
+
+(* stream "warn": (gcl, same, warnings in order, digest table, emitted records in order) *)
+Definition c20_check_warn (c : bool * bool * list wmsg * list (text * text) * list wrec) : bool :=
+  let '(gcl, same, msgs, dg, recs) := c in wrecs_ok (digest_of dg) (warn_session gcl same msgs) recs.
+Definition c20_show_warn (c : bool * bool * list wmsg * list (text * text) * list wrec) : list wmsg :=
+  let '(gcl, same, msgs, dg, recs) := c in warn_session gcl same msgs.
+
+(* ------------------------------------------------------------------ *)
 (* Decoder for the generated case files.  A case is ONE string literal (long list
    literals are what makes coqc slow): an s-expression whose atoms are 'text' with
    printable ASCII standing for itself and any other code point written \<hex>; *)
@@ -829,4 +971,29 @@ Definition c20_dec_sess (s : string) : heap * list sop * list (text * text) * li
       | None => ([], [], [], [BNone])           (* undecodable operation: the check fails *)
       end
   | _ => ([], [], [], [BNone])
+  end.
+
+(* warning sessions: a message is ('o' object) | ('t' 'text') | ('t' 'text' json); a record is
+   ('L' 'can' 'text' table 'out') | ('F' fields) *)
+Definition sx_wmsg (s : sx) : option wmsg :=
+  match s with
+  | SL (SA [111] :: o :: []) => Some (WObj (sx_obj o))
+  | SL (SA [116] :: SA t :: []) => Some (WText t None)
+  | SL (SA [116] :: SA t :: j :: []) => Some (WText t (Some (sx_json j)))
+  | _ => None
+  end.
+Definition sx_wrec (s : sx) : option wrec :=
+  match s with
+  | SL (SA [76] :: c :: SA rec :: ps :: SA out :: []) => Some (RLine (sx_bool c) rec (sx_ptab ps) out)
+  | SL (SA [70] :: fields :: []) => Some (RFields (sx_pairs fields))
+  | _ => None
+  end.
+Definition c20_dec_warn (s : string) : bool * bool * list wmsg * list (text * text) * list wrec :=
+  match sx_parse s with
+  | [g; sm; msgs; dg; recs] =>
+      match all_some_list (sx_list sx_wmsg msgs), all_some_list (sx_list sx_wrec recs) with
+      | Some ms, Some rs => (sx_bool g, sx_bool sm, ms, sx_pairs dg, rs)
+      | _, _ => (false, false, [], [], [RFields []])      (* undecodable: the check fails *)
+      end
+  | _ => (false, false, [], [], [RFields []])
   end.
